@@ -873,3 +873,51 @@ func c10LinkComplete(c *core.Ctx) {
 	}
 	c.Check(n >= 2, "FindPathWithLink call sites in the converters", "", fmt.Sprintf("%d sites", n), fmt.Sprintf("%d sites", n))
 }
+
+// ---------------------------------------------------------------------------------------------
+// More error-exit rows (socket, acme client, converter add* helpers, gateway admission, endpoints).
+// ---------------------------------------------------------------------------------------------
+
+func init() {
+	type row = struct {
+		prop, pkg, fn string
+		idx           int
+		want          []string
+		why           string
+	}
+	const sock = "a socket failure that is not reported makes the dynamic update count as applied: the running process and the files diverge and nothing is retried"
+	const acme = "the signer stores a certificate only when every step of the order succeeded; a swallowed failure stores an empty or partial secret, a new failure makes a valid order fail"
+	const conv = "a declaration that cannot be honoured (service or port missing, endpoints unreadable, duplicated root path) is reported and skipped; anything else either drops a good rule or configures a backend without its servers"
+	const adm = "a route is refused by a listener exactly for the reviewed reasons (kind not listed, namespace not admitted, namespace unreadable, bad selector)"
+	errorExitTable = append(errorExitTable, []row{
+		{"C12", "haproxy/socket", "sock.Send", 1, []string{`send when send != nil`, `send when send != nil`}, sock},
+		{"C12", "haproxy/socket", "sock.send", 1, []string{`Errorf when Read#1 != EOF`, `Errorf when acquireConn != nil`, `Errorf when after the loop`}, sock},
+		{"C12", "haproxy/socket", "sock.acquireConn", 1, []string{`Dial when Dial != nil`, `Errorf when !s.listening`, `SetDeadline always`, `send when send != nil`}, sock},
+		{"C17", "acme", "signer.Notify", 0, []string{`Errorf when !HasAccount`, `verify when HasAccount`}, acme},
+		{"C17", "acme", "client.ensureAccount", 0, []string{`CreateAccount when CreateAccount != nil`, `GetAccount when GetAccount != nil`}, acme},
+		{"C17", "acme", "client.authorize", 0, []string{`AcceptChallenge when AcceptChallenge != nil`, `Errorf when Client.WaitAuthorization#1`, `GetAuthorization when GetAuthorization != nil`, `HTTP01ChallengeResponse when HTTP01ChallengeResponse != nil`, `SetToken when SetToken != nil`, `WaitAuthorization when !Client.WaitAuthorization#1`}, acme},
+		{"C17", "acme", "client.Sign", 2, []string{`CreateOrder when CreateOrder != nil`, `Errorf when len(dnsnames) == 0`, `authorize when authorize != nil`, `signRequest when authorize == nil`}, acme},
+		{"C17", "acme", "client.signRequest", 2, []string{`CreateCertificateRequest when CreateCertificateRequest != nil`, `FinalizeOrder when FinalizeOrder == nil`, `FinalizeOrder when after the loop`, `GenerateKey when GenerateKey != nil`}, acme},
+		{"C03", "converters/ingress", "converter.addDefaultHostBackend", 0, []string{`Errorf when FindPath != nil`, `addBackend when addBackend != nil`}, conv},
+		{"C03", "converters/ingress", "converter.addEndpoints", 0, []string{`CreateEndpoints when CreateEndpoints != nil`, `Errorf when GetTerminatingPods != nil`}, conv},
+		{"C03", "converters/ingress", "converter.addTCPService", 1, []string{`Errorf when !IsEmpty`}, conv},
+		{"C03", "converters/ingress", "converter.addBackendWithClass", 1, []string{`Errorf when Atoi#0 == 0`, `Errorf when FindServicePort == nil`, `GetService when GetService != nil`}, conv},
+		{"C03", "converters/ingress", "readServiceNamePort", 2, []string{`Errorf when backend.Service == nil`}, conv},
+		{"C03", "converters/utils", "CreateEndpoints", 2, []string{`GetEndpointSlices when GetEndpointSlices != nil`, `GetEndpoints when GetEndpoints != nil`, `createEndpointSlices/createEndpoints/createEndpointsExternalName always`}, conv},
+		{"C03", "converters/utils", "CreateSvcEndpoint", 1, []string{`Errorf when svcPort.Port <= 0`}, conv},
+		{"C03", "converters/utils", "createEndpointsExternalName", 1, []string{`Errorf when svcPort.Port <= 0`, `ExternalNameLookup when ExternalNameLookup != nil`}, conv},
+		{"C10", "converters/gateway", "converter.getHTTPRoutesSourceA2", 1, []string{`Errorf when GetHTTPRouteA2List != nil`}, adm},
+		{"C10", "converters/gateway", "converter.getHTTPRoutesSourceB1", 1, []string{`Errorf when GetHTTPRouteB1List != nil`}, adm},
+		{"C10", "converters/gateway", "converter.getHTTPRoutesSource", 1, []string{`Errorf when GetHTTPRouteList != nil`}, adm},
+		{"C10", "converters/gateway", "converter.checkListenerAllowed", 0, []string{`checkListenerAllowedKind when checkListenerAllowedKind != nil`, `checkListenerAllowedNamespace when checkListenerAllowedNamespace != nil`, `errRouteNotAllowed always`}, adm},
+		{"C10", "converters/gateway", "checkListenerAllowedKind", 0, []string{`Errorf when after the loop`}, adm},
+		{"C10", "converters/gateway", "converter.checkListenerAllowedNamespace", 0, []string{`GetNamespace when GetNamespace != nil`, `LabelSelectorAsSelector when LabelSelectorAsSelector != nil`, `errRouteNotAllowed always`, `errRouteNotAllowed when namespaces.From != "All"`, `errRouteNotAllowed when namespaces.Selector == nil`}, adm},
+		{"C15", "controller/services", "c.get", 0, []string{`Get when SplitMetaNamespaceKey == nil`, `SplitMetaNamespaceKey when SplitMetaNamespaceKey != nil`}, "a lookup fails iff the key is malformed or the object is not found"},
+		{"C15", "controller/services", "buildResourceName", 2, []string{`Errorf when SplitMetaNamespaceKey#0 != defaultNamespace`, `SplitMetaNamespaceKey when SplitMetaNamespaceKey != nil`}, "a name is refused iff it is malformed or names another namespace without permission"},
+		{"C15", "controller/services", "c.GetIngress", 1, []string{`Errorf when !IsValidIngress`, `get always`}, "an Ingress of another class is reported as not found"},
+	}...)
+	addRule("C03", &core.Rule{ID: "C03.error-exits", Floor: 8, Run: func(c *core.Ctx) { errorExitRule(c, "C03") },
+		Doc: "The converter helpers that resolve a rule to a backend and its endpoints (addDefaultHostBackend, addTCPService, addBackendWithClass, addEndpoints, readServiceNamePort, CreateEndpoints, CreateSvcEndpoint, createEndpointsExternalName) fail exactly for the reviewed reasons."})
+	addRule("C10", &core.Rule{ID: "C10.error-exits", Floor: 6, Run: func(c *core.Ctx) { errorExitRule(c, "C10") },
+		Doc: "Route listing and listener admission (getHTTPRoutesSource*, checkListenerAllowed, checkListenerAllowedKind, checkListenerAllowedNamespace) refuse exactly for the reviewed reasons; every refusal of admission is errRouteNotAllowed or the error of a failed lookup."})
+}
